@@ -285,7 +285,7 @@ _sodium_runtime_intel_cpu_features(CPUFeatures * const cpu_features)
                              : "c"((uint32_t) 0U)
                              : "%edx");
 # endif
-# ifdef SODIUM_VERIF
+# if defined(SODIUM_VERIF) && (defined(HAVE__XGETBV) || defined(HAVE_AVX_ASM))
         if (_sodium_verif_regs != NULL) {
             xcr0 = _sodium_verif_regs[4];
         }
